@@ -114,6 +114,18 @@ pub enum GKind {
     Stream { filters: Vec<u8>, plain: Vec<u8> },
     Image { filters: Vec<u8>, plain: Vec<u8> },
     ObjStm { members: Vec<u64>, filters: Vec<u8> },
+    /// annotation dictionary; `page` = /P (0: none)
+    Annot { page: u64 },
+    /// array object `[a 0 R b 0 R …]` (what an indirect /Annots points at)
+    AnnotArr { ids: Vec<u64> },
+}
+
+/// how the /Annots entry of a page is written (the primitive kept by `Page::annotations : Lazy<_>`)
+#[derive(Clone, Debug, PartialEq)]
+pub enum AForm {
+    Direct(Vec<u64>),
+    Ref(u64),
+    Absent,
 }
 
 #[derive(Clone, Debug, PartialEq)]
@@ -137,6 +149,8 @@ pub struct GDoc {
     pub tolerant: bool,
     pub objs: Vec<GObj>,
     pub xref_stream: bool,
+    /// (page, form of its /Annots)
+    pub annots: Vec<(u64, AForm)>,
 }
 
 fn list(xs: &[u64]) -> String {
@@ -163,7 +177,19 @@ impl GDoc {
                 let ks: Vec<String> = kids.iter().map(|k| format!("{} 0 R", k)).collect();
                 format!("<< /Type /Pages /Marker {} /MediaBox [0 0 {} 1]{} /Kids [{}] /Count {} >>", o.id, o.id, p, ks.join(" "), count).into_bytes()
             }
-            GKind::Page { parent } => format!("<< /Type /Page /Marker {} /Parent {} 0 R >>", o.id, parent).into_bytes(),
+            GKind::Page { parent } => {
+                let annots = match self.annots.iter().find(|(p, _)| *p == o.id).map(|(_, f)| f) {
+                    Some(AForm::Direct(ids)) => format!(" /Annots [{}]", ids.iter().map(|i| format!("{} 0 R", i)).collect::<Vec<_>>().join(" ")),
+                    Some(AForm::Ref(r)) => format!(" /Annots {} 0 R", r),
+                    _ => String::new(),
+                };
+                format!("<< /Type /Page /Marker {} /Parent {} 0 R{} >>", o.id, parent, annots).into_bytes()
+            }
+            GKind::Annot { page } => {
+                let p = if *page != 0 { format!(" /P {} 0 R", page) } else { String::new() };
+                format!("<< /Type /Annot /Subtype /Text /Marker {}{} >>", o.id, p).into_bytes()
+            }
+            GKind::AnnotArr { ids } => format!("[{}]", ids.iter().map(|i| format!("{} 0 R", i)).collect::<Vec<_>>().join(" ")).into_bytes(),
             GKind::Cat { pages } => format!("<< /Type /Catalog /Version /M{} /Marker {} /Pages {} 0 R >>", o.id, o.id, pages).into_bytes(),
             GKind::Stream { filters, plain } => {
                 let (data, _) = build_stages(plain, filters);
@@ -248,6 +274,8 @@ impl GDoc {
                 GKind::Dict => "d".to_string(),
                 GKind::Pages { parent, kids, count } => format!("P,{},{},{}", parent, list(kids), count),
                 GKind::Page { parent } => format!("p,{}", parent),
+                GKind::Annot { page } => format!("A,{}", page),
+                GKind::AnnotArr { ids } => format!("V,{}", list(ids)),
                 GKind::Cat { pages } => format!("c,{}", pages),
                 GKind::Stream { filters, .. } => format!("S,{},{}", flist(filters), stage_list(&self.stages(o))),
                 GKind::Image { filters, .. } => format!("X,{},{}", flist(filters), stage_list(&self.stages(o))),
@@ -256,6 +284,16 @@ impl GDoc {
             format!("{},{},{}", o.id, place, kind)
         }).collect();
         format!("{} {} {}", self.size, self.root, if objs.is_empty() { "-".to_string() } else { objs.join(";") })
+    }
+
+    /// `<page>:a:<ids>;<page>:r:<id>;<page>:n` — the cells of `c13.lazy`, in the order of `self.annots`
+    pub fn cells_desc(&self) -> String {
+        if self.annots.is_empty() { return "-".into(); }
+        self.annots.iter().map(|(p, f)| match f {
+            AForm::Direct(ids) => format!("{}:a:{}", p, list(ids)),
+            AForm::Ref(r) => format!("{}:r:{}", p, r),
+            AForm::Absent => format!("{}:n", p),
+        }).collect::<Vec<_>>().join(";")
     }
 
     /// is the /Parent relation (the nested typed loads) free of cycles?
@@ -467,5 +505,5 @@ pub fn gen_doc(rng: &mut Rng, opts: &GenOpts) -> GDoc {
     }
     let size = next + 1; // the last number is kept for the cross-reference stream
     objs.sort_by_key(|o| o.id);
-    GDoc { size, root: 1, tolerant: rng.chance(1, 2), objs, xref_stream }
+    GDoc { size, root: 1, tolerant: rng.chance(1, 2), objs, xref_stream, annots: vec![] }
 }
